@@ -24,7 +24,7 @@ GROUPS += [
      for k, nm, txt in [(-1, 'plain', 'makes no API call'), (0, 'schedules', 'schedules another event (the heap may move)'), (1, 'cancels', 'cancels an arbitrary event'),
                         (2, 'reprioritizes', 'reprioritises an arbitrary event'), (3, 'reschedules', 'reschedules an arbitrary event'), (4, 'clears', 'clears the queue')]] + [
     _ev('C01.O2.event_waiters.executed', 'h_waiters', 'H_WAITERS', '<= 2 pending events, <= 2 processes waiting for the front event, which executes', extra=['CMV_WCANCEL=0'], timeout=1500),
-    _ev('C01.O2.event_waiters.leave_executed', 'h_waiters', 'H_WAITERS', 'one pending event with one waiter executes; afterwards the waiter leaves: its wake-up on the way is stopped', extra=['CMV_WLEAVE', 'CMV_WCANCEL=0'], timeout=3000, tier='thorough'),
-    _ev('C01.O2.event_waiters.leave_cancelled', 'h_waiters', 'H_WAITERS', 'one pending event with one waiter is cancelled; afterwards the waiter leaves: its wake-up on the way is stopped', extra=['CMV_WLEAVE', 'CMV_WCANCEL=1'], timeout=3000, tier='thorough'),
+    # (the case 'a waiter leaves after the event is gone' - CMV_WLEAVE in harness/event.c - is NOT registered: the pattern
+    #  cancel inside cmi_event_remove_waiter over the sorted hashheap stub did not finish in 3400 s / 3000 s; DESIGN.md section 7)
     _ev('C01.O2.event_waiters.cancelled', 'h_waiters', 'H_WAITERS', '<= 2 pending events, <= 2 processes waiting for the front event, which is cancelled', extra=['CMV_WCANCEL=1'], timeout=1500),
 ] + [_ev('C01.O3.api.%s' % nm, 'h_api', 'H_API', 'arbitrary pending set of <= 3 events; %s with any handle / pattern' % nm, extra=['CMV_OP=%d' % i], tier=('thorough' if nm == 'pattern_cancel' else 'quick'), timeout=(1800 if nm == 'pattern_cancel' else 600)) for i, nm in enumerate(_ops)]
